@@ -21,6 +21,8 @@ EXPLANATION = (
   "a decoder uses a validating one (not a bare coercion such as bool), and range checks are satisfiable; (DET) no iteration over a "
   "set / frozenset, no id/hash/random/time/uuid/getpid in the modules reachable from convert, and no mutation of module- or "
   "class-level containers outside the tabled, idempotent ones."
+  " (FIN-decoders) decode_bool, the fps decoder and the safe-area decoder accept the documented values with the documented meaning and reject near misses (probe tables evaluated with the finite evaluator);"
+  " (CONFIG) the configuration file replaces - is not merged over - the inline configuration;"
 )
 RULE_TEXT = "per FileTypes member x {reader, writer}, per configuration class, per output-opening statement, per config field, per set iteration / global mutation"
 UNDECIDED = ["byte identity with the library pipeline as a whole", "that every decoder rejects exactly the undocumented values (decided for the probe tables of decode_bool, the fps decoder and the safe-area decoder only)",
